@@ -21,7 +21,8 @@ SPEC_TIMEOUT = 900
 CONFIRM_ALONE = ('putlock_pool_hung', 'blocked_submitter_never_released',
                  'blocked_acquirer_woken_only_by_its_timeout')
 FLOORS = {
-    'quick': {'l0:sem_ops': 100000, 'l0:release_at_cap': 500, 'l0:sem_mt_acquires': 4000, 'l0:wakeups_grow': 4, 'l0:wakeups_release': 4,
+    'quick': {'l0:sem_ops': 100000, 'l0:release_at_cap': 500, 'l0:sem_mt_acquires': 4000, 'l0:wakeups_grow': 4, 'l0:wakeups_release': 4, 'l0:cap_race_rounds': 200,
+              'l0:yield_injections': 1000,
               'sim:sem_reads': 15000, 'sim:submit_skipped_no_slot': 1000, 'sim:quiescence_checks': 300,
               'sim:grow': 20, 'sim:shrink': 10},
     'thorough': {'l0:sem_ops': 1000000, 'sim:sem_reads': 200000, 'sim:submit_skipped_no_slot': 3000},
@@ -38,6 +39,8 @@ def plan(tier, seed):
              for i in range(4 if q else 8)]
     specs += [{'lane': 'l0mt', 'seed': seed * 1000 + 50 + i, 'cases': 6 if q else 30}
               for i in range(4 if q else 8)]
+    specs += [{'lane': 'l0race', 'seed': seed * 1000 + 90 + i, 'cases': 150 if q else 600}
+              for i in range(2 if q else 6)]
     specs += [{'lane': 'l0wake', 'seed': seed * 1000 + 80 + i, 'cases': 10 if q else 40}
               for i in range(2 if q else 6)]
     per, hist = (3, 70) if q else (10, 220)
@@ -57,6 +60,8 @@ def run_spec(spec, rec):
         return l0_small.c10_sequential(spec, rec)
     if spec['lane'] == 'l0mt':
         return l0_small.c10_threads(spec, rec)
+    if spec['lane'] == 'l0race':
+        return l0_small.c10_cap_race(spec, rec)
     if spec['lane'] == 'l0wake':
         return l0_small.c10_wakeups(spec, rec)
     from vmon import real_c10
